@@ -17,6 +17,10 @@ from ..common import Report, finish
 from ..facts import REPO, AnalysisBroken
 
 MEM_PRIMS = {'memcpy', 'memset', 'memmove', 'memcmp'}
+# compiler builtins that are expanded in place (no call, no symbol): whatever a build does emit is still seen by R20.a
+PURE_BUILTINS = {'__builtin_' + n for n in ('expect', 'expect_with_probability', 'unreachable', 'constant_p', 'bswap16', 'bswap32', 'bswap64', 'offsetof',
+                                          'assume_aligned', 'types_compatible_p', 'choose_expr', 'add_overflow', 'sub_overflow', 'mul_overflow',
+                                          'prefetch', 'object_size')}
 # compiler runtime a C compiler may reference by itself; each with its reason
 RUNTIME_OK = {
     '__stack_chk_fail': 'stack protector epilogue (distribution default flags)',
@@ -138,7 +142,7 @@ def run(tier):
                         callee = callee['inner'][0]
                     if callee.get('kind') == 'DeclRefExpr' and callee['referencedDecl'].get('kind') == 'FunctionDecl':
                         cn = callee['referencedDecl']['name']
-                        ok = cn in core_defs or cn in port_fns
+                        ok = cn in core_defs or cn in port_fns or cn in PURE_BUILTINS
                         rep.check(ok, 'R20.b', '%s|%s|%s' % (rel(ix.unit.abspath), fname, cn),
                                   'core function %s calls %s, which is neither defined in the core nor declared in lltdPort.h' % (fname, cn),
                                   node=n, function=fname)
